@@ -25,7 +25,7 @@ CHECKS = {
              "specialisation): fallback lookup is total and terminates (acyclic dependency graph); the PostScript sanitiser's tests "
              "provably apply to the appended character (propositional entailment over the guards, stable reaching definitions); every CFF "
              "string sink is fed through the reducer (4 listed known findings); the VF info override forwards every info-derived field; "
-             "every UFO3 fontinfo attribute is consumed or reviewed-unused. Field values are not decided.",
+             "every UFO3 fontinfo attribute is consumed or reviewed-unused. the object getAttrWithFallback returns is never modified in place; info values are compared with None, never tested by truthiness (reviewed string / list exceptions). Field values are not decided.",
         design_ref="DESIGN.md §5 C16", note=STATIC_NOTE,
         technique="static analysis: constant propagation, fallback call-graph cycle check, value-flow sanitiser rule, taint of info-derived fields"),
     "C13": dict(
@@ -59,7 +59,7 @@ CHECKS = {
              "(explicit script/language statements from code-point-derived scripts vs. bare lookups that depend on languagesystem), "
              "derived from the statement kinds reachable from each writer's _write. All writers must share one mode unless something "
              "generates languagesystem statements. Today's mismatch (kern explicit, mark and curs implicit) is a genuine defect recorded "
-             "as two known findings; any further writer or mode change is a new violation. The compiled ScriptList is not evaluated.",
+             "as two known findings; any further writer or mode change is a new violation. Where scripts are registered explicitly the languages under a tag are those declared for that tag; writers keep no per-font state / memoised classification. The compiled ScriptList is not evaluated.",
         design_ref="DESIGN.md §5 C20", note=STATIC_NOTE,
         technique="static analysis: per-writer reachability over the call graph + sibling agreement on emitted statement kinds"),
     "C18": dict(
@@ -67,7 +67,7 @@ CHECKS = {
              "site-packages on every run) and of OpenTypeCategories.load with its tuple fields; user-GDEF suppression is exhaustive over "
              "every LigatureCaret*Statement class feaLib defines (guard formula entailment); carets sorted then otRound'ed, x for caret_, "
              "y for vcaret_; RightToLeft flag control-dependence with the .LTR/.RTL override ordered before it; LTR/RTL split by the LTR "
-             "glyph set; cursive coordinates rounded. The compiled GDEF/GPOS values are not read back.",
+             "glyph set; cursive coordinates rounded. the LTR glyph set is classifyGlyphs(unicodeScriptDirection, whole cmap, compiled GSUB, extras); no caret / cursive coordinate tested by truthiness. The compiled GDEF/GPOS values are not read back.",
         design_ref="DESIGN.md §5 C18", note=STATIC_NOTE,
         technique="static analysis: signature/role agreement with third-party sources, control-dependence facts, exhaustiveness over parsed class list"),
     "C01": dict(
@@ -76,7 +76,7 @@ CHECKS = {
              "(default, forwarding to the pen whose signature is parsed from fontTools, no call site switches it off); advance widths / "
              "heights / charstring widths flow through otRound on every reaching definition; roundTolerance reaches the pen; builtin "
              "round/int/floor/ceil only at 11 reviewed sites; negative advances raise before being stored; each glyph is drawn exactly once "
-             "and directly into its T2CharStringPen. Equality of drawn coordinates with the source is not decided.",
+             "and directly into its T2CharStringPen. no rounding of glyph geometry inside the pre-processing filters / decomposition helper (reviewed exceptions); components are only resolved by util.decomposeCompositeGlyph. Equality of drawn coordinates with the source is not decided.",
         design_ref="DESIGN.md §5 C01", note=STATIC_NOTE,
         technique="static analysis: value-flow (reaching definitions) sanitiser rule for otRound, CFG dominance/path rules, reviewed coercion whitelist"),
     "C02": dict(
@@ -84,7 +84,7 @@ CHECKS = {
              "propositional evaluation of the guards over all option assignments (filter applied iff the options say so); option->keyword "
              "bindings; the absolute-error formula (structure, per-master UPM); cubic-in-glyf0 guard; glyphDataFormat tied to allQuadratic; "
              "cycle rejection reachable from maxp/glyf and not swallowed by any handler; depth-ordered glyf assembly; otRound/noRound "
-             "selection; option plumbing by name. The cu2qu error bound and point equality are not decided.",
+             "selection; option plumbing by name. nested transformations composed as outer o inner with fontTools' Transform algebra, no hand-assembled Transform; components only resolved by util.decomposeCompositeGlyph. The cu2qu error bound and point equality are not decided.",
         design_ref="DESIGN.md §5 C02", note=STATIC_NOTE,
         technique="static analysis: exhaustive guard evaluation (decision table), sibling agreement, formula-shape matching after local inlining, call-graph handler audit"),
     "C08": dict(
@@ -118,7 +118,7 @@ CHECKS = {
              "pair is recorded only under membership of its mark counterpart (markPrefix + key) and never for mark anchors; mark classes "
              "written and read under anchor.key, argument roles of _defineMarkClass / MarkClassDefinition; ligature components "
              "range(1, max+1) with [] for gaps and numbering >= 1; statement-class table against fontTools; attachment filters "
-             "(numbered / class-less / mark glyphs); parseAnchorName prefix logic. Resulting offsets, lookup grouping and abvm/blwm "
+             "(numbered / class-less / mark glyphs); parseAnchorName prefix logic. no coordinate tested by truthiness; abvm / not-abvm sets cover the glyph set; markGlyphNames filled under the same guards as the mark classes; class name carried over after a name clash. Resulting offsets, lookup grouping and abvm/blwm "
              "routing are not decided.",
         design_ref="DESIGN.md §5 C06", note=STATIC_NOTE,
         technique="static analysis: argument-role agreement against parsed fontTools signatures, coordinate leaf tracing through reaching definitions, guard facts from control dependence, class-attribute tables"),
@@ -164,7 +164,7 @@ CHECKS = {
              "adjustment only rewrites existing entries, each position is the base anchor mapped through its own component's "
              "transformation; transformations filter transforms included bases before replaying the composite, compensates components "
              "of transformed bases with the inverse on the inner side, maps every anchor as a point and the advance as a vector, and "
-             "builds its matrix in the documented order. Affine arithmetic and rendering equality are not decided.",
+             "builds its matrix in the documented order. components only resolved by util.decomposeCompositeGlyph (no second decomposer). Affine arithmetic and rendering equality are not decided.",
         design_ref="DESIGN.md §5 C15", note=STATIC_NOTE,
         technique="static analysis: formula-shape matching after local inlining, guard facts from control dependence, dominance/order rules, mutation scan of the composite"),
     "C17": dict(
@@ -198,7 +198,7 @@ CHECKS = {
              "(extent = bearing + box size, second bearing = advance - bearing - box size), and each header field is the max / min of "
              "its own list; the long-metric count is len(advances) minus the trailing run equal to the last, at least 1; font box = "
              "union of glyph boxes, head gets it rounded in its own roles; OS/2 first / last index = min / max code point (capped), "
-             "maxp.numGlyphs, post 2.0 names and VORG default / records follow the glyph data. The byte round trip save -> reload -> "
+             "maxp.numGlyphs, post 2.0 names and VORG default / records follow the glyph data. the metrics tables are written by their own builders only. The byte round trip save -> reload -> "
              "save, the bounding-box arithmetic of the pens and the values fontTools recalculates at compile time are NOT decided "
              "(runtime quantities; no static argument in reach).",
         design_ref="DESIGN.md §5 C04", note=STATIC_NOTE,
